@@ -42,7 +42,7 @@ STATS = Counter()
 LAST = {}
 
 ROOT = "/r"
-DIR_CLASSES = [None, "/r/build", "/out/build", "build", "build/../build2"]
+DIR_CLASSES = [None, "/r/build", "/out/build", "build", "build/../build2", "blink"]  # blink -> /out/build (a symbolic link)
 FILE_CLASSES = ["/r/src/a.c", "../src/a.c", "./x.c", "sub/../x.c"]
 INC_CLASSES = ["/r/inc", "inc", "../inc", "."]
 KINDS = ["good", "missing", "object", "link", "empty-command", "empty-arguments"]
@@ -57,11 +57,14 @@ def _fs():
     fs.mkdir("/r/build2/sub")
     fs.mkdir("/out/build/sub")
     fs.mkdir("/r/sub")
+    fs.symlink("/r/blink", "/out/build")
     return fs
 
 
 def ref_paths(directory, file, incs):
     cwd = ROOT if directory is None else (directory if directory.startswith("/") else posixpath.normpath(posixpath.join(ROOT, directory)))
+    # a process started in a directory reached through a symbolic link sits in the link's target: '..' climbs from there
+    cwd = _fs().realpath(cwd)
     f = posixpath.normpath(posixpath.join(cwd, file))
     return f, [posixpath.normpath(posixpath.join(cwd, i)) for i in incs]
 
@@ -98,7 +101,7 @@ def _entry(kind, dcls, fcls, icls, form, iform=0):
 
 
 def _pre(kind, d, f, i, first, nodir, iform):
-    if not (0 <= kind < 6 and 0 <= d < 5 and 0 <= f < 4 and 0 <= i < 4 and 0 <= iform < 4):
+    if not (0 <= kind < 6 and 0 <= d < 6 and 0 <= f < 4 and 0 <= i < 4 and 0 <= iform < 4):
         return False
     if kind != 0 and iform != 0:
         return False
@@ -138,7 +141,7 @@ def h_db(kind: int, d: int, f: int, i: int, first: bool, nodir: bool, iform: int
     for k in range(6):
         if kind == k:
             kd = KINDS[k]
-    for k in range(5):
+    for k in range(6):
         if d == k:
             dc = DIR_CLASSES[k]
     for k in range(4):
